@@ -4,7 +4,9 @@
                                           impl=<ms>|ub|uninit spec=<ms>|none value=<hex> unit=<hex>
      sim <v> <prog> <sched>               run one schedule:    class=.. steps=.. trace=..
      simc <v> <prog> <sched>              the same, then completed canonically to a terminal state
-     enum <v> <prog> <switches> <cap>     all realisable complete schedules with at most <switches>
+     enum <v> <prog> <switches> <cap> [atomic]   (atomic: a <cancel> runs uninterrupted and only starts while no
+                                          callback is in progress -- for programs with repeated sendids)
+                                          all realisable complete schedules with at most <switches>
                                           context switches: <sched>|<class>|<steps>|<trace> joined by ';'
      oracle <gran> <trace>                delay_admissibleb on an observed history (oldest first in the text)
    <v>     three bits: dv_cb_takes_entry dv_ready_checks dv_cancel_noblock  (000 = the pinned code)
@@ -61,6 +63,10 @@ let class_str v s =
 (* one token per scheduled step: what the thread was about to do and how it ended *)
 let nprog0 = ref 0
 let skipped = ref 0
+(* programs with several sends under one sendid: InterpreterImpl::cancelDelayed walks them in the order of their
+   (random) UUIDs, so a <cancel> is only enumerated as one uninterrupted run of the interpreter thread that
+   starts while no timer callback is in progress *)
+let atomic_cancel = ref false
 let step_token v (s:dstate) (t:tid) : string =
   let res = dstep v pick_min s t in
   let opidx () = !nprog0 - List.length s.prog in
@@ -129,6 +135,8 @@ let enum_from v prog prefix maxsw cap =
       else finish s sched toks
     end else if s.ipc = IAllLocked && enabled v s Interp then
       step s Interp last sw sched toks depth
+    else if !atomic_cancel && (match s.ipc with IQBefore _ | IQLocked _ -> true | _ -> false) && enabled v s Interp then
+      step s Interp last sw sched toks depth
     else if timer_due s then begin
       (* two timers with the same (logical) least due time: which of them libevent runs first is decided by
          the sub-tick difference of their real due times, which the replay cannot control: not enumerated *)
@@ -139,6 +147,9 @@ let enum_from v prog prefix maxsw cap =
     end
     else begin
       let cands = List.filter (fun t -> enabled v s t) [Interp; Timer] in
+      let cancel_next = (match s.prog with OCancel _ :: _ -> true | _ -> false) in
+      let cands = if !atomic_cancel && s.ipc = IIdle && s.tpc <> TIdle && cancel_next
+                  then List.filter (fun t -> t <> Interp) cands else cands in
       let cands = if tick_useful s then cands @ [Clock] else cands in
       let cands = if cands = [] then [Clock] else cands in
       (* with the budget used up: stay on the last thread if it can move, else the other, else tick *)
@@ -190,9 +201,11 @@ let handle (line:string) : string =
            Printf.sprintf "class=%s sched=%s steps=%s trace=%s" c (if sch' = "" then "-" else sch')
              (String.concat "," (String.split_on_char ' ' toks)) tr
        | [] -> "ERR no completion")
-  | ["enum"; v; p; sw; cap] ->
+  | "enum" :: v :: p :: sw :: cap :: opt ->
+      atomic_cancel := (opt = ["atomic"]);
       let v = variant_of v in
       let l = enum v (prog_of p) (int_of_string sw) (int_of_string cap) in
+      atomic_cancel := false;
       String.concat ";" (List.map (fun (sch, c, toks, tr) ->
         Printf.sprintf "%s|%s|%s|%s" (if sch = "" then "-" else sch) c (String.concat "," (String.split_on_char ' ' toks)) tr) l)
   | ["oracle"; g; tr] ->
